@@ -105,6 +105,13 @@ pub struct GraphObs {
     pub edges: Vec<(u32, u32, EdgeObs)>,
     pub root: u32,
     pub unresolved: Option<u32>,
+    /// per node: indices (into `edges`) of its outgoing edges in the order in which
+    /// petgraph's `graph.edges(n)` yields them (checked against the renderer model)
+    #[serde(default)]
+    pub out_order: Vec<Vec<u32>>,
+    /// nodes in the order produced by petgraph's `DfsPostOrder` from the root
+    #[serde(default)]
+    pub dfs_post: Vec<u32>,
 }
 #[derive(Clone, Debug, Default, Serialize, Deserialize, PartialEq, Eq)]
 pub struct ConflictObs {
@@ -192,6 +199,13 @@ pub fn graph_obs(g: &resolvo::conflict::ConflictGraph) -> GraphObs {
     }
     out.root = pos(g.root_node);
     out.unresolved = g.unresolved_node.map(pos);
+    for &n in &idx {
+        out.out_order.push(g.graph.edges(n).map(|e| e.id().index() as u32).collect());
+    }
+    let mut dfs = petgraph::visit::DfsPostOrder::new(&g.graph, g.root_node);
+    while let Some(nx) = dfs.next(&g.graph) {
+        out.dfs_post.push(pos(nx));
+    }
     out
 }
 
